@@ -130,7 +130,7 @@ def _unmerged_shard(items):
 def straight_runs(ctx):
     """'exactly loops x frame_count frames are produced absent seeks' - checked directly for more frame
     counts than the searches use: next() until StopIteration, no other operation."""
-    lb = M.lib()
+    M.lib()
     M.ensure_world()
     for n in range(2, 7):
         for loops in (1, 2, 3, 4):
